@@ -675,6 +675,37 @@ func textCase(prop string, isObj bool, s string, f *failer, tags []string, extra
 	}
 }
 
+// ---------- exhaustive small scope: every string over the structural alphabet up to a length, behind four prefixes that put the
+// machines into their main states (list value position, object key position, object value position, inside a string) ----------
+
+var exhaustAlphabet = []string{"[", "]", "{", "}", "\"", ":", ",", "1", " ", "\n", "a", "\\"}
+
+func genExhaustiveParser(maxLen int, out *Out) {
+	type pre struct {
+		isObj  bool
+		prefix string
+	}
+	pres := []pre{{false, "["}, {true, "{"}, {true, "{\"k\":"}, {false, "[\""}}
+	var rec func(cur string, depth int)
+	emit := func(body string) {
+		for _, p := range pres {
+			c := textCase("C04", p.isObj, p.prefix+body, &failer{pred: true}, []string{"exhaustive-small-scope"}, nil)
+			c.Nontrivial = false
+			out.emit(c)
+		}
+	}
+	rec = func(cur string, depth int) {
+		emit(cur)
+		if depth == maxLen {
+			return
+		}
+		for _, a := range exhaustAlphabet {
+			rec(cur+a, depth+1)
+		}
+	}
+	rec("", 0)
+}
+
 var wsChars = []string{" ", "\t", "\n", "\r", "  ", " \n ", "\r\n"}
 
 func (r *R) wsSlot() string {
